@@ -329,6 +329,24 @@ class Scheduler:
         if nxt is not None and nxt is not cur:
             self._switch(cur, nxt, site, False)
 
+    def yield_away(self, site):
+        """Hand the baton to some OTHER runnable thread if there is one (used by
+        observer threads, which must never spin)."""
+        cur = self.current
+        if cur is None or threading.get_ident() != cur.ident:
+            self.foreign_threads += 1
+            return
+        self.step += 1
+        if self.step > self.max_steps:
+            self._abort(StepBudget(f"step budget {self.max_steps} exhausted"))
+        others = [t for t in self.runnable() if t is not cur]
+        if not others:
+            if any(not t.finished for t in self.threads if t is not cur):
+                self._abort(SimDeadlock(f"deadlock at step {self.step}: only the observer thread can run"))
+            return
+        nxt = self.policy.forced(self, cur, others, site)
+        self._switch(cur, nxt, site, True)
+
     def block(self, pred, site):
         """Block the calling simulated thread until pred() holds."""
         cur = self.current
